@@ -477,6 +477,11 @@ def run(ctx):
                (["{x km to m : x in 1..3}"], "A:[I:1000;I:2000;I:3000]", "a quantity node evaluated per element follows the element"),
                (["zs = #2024-01-01T00:00:00#", "zq = #2024-01-02T00:00:00.000001# - zs", "(zs + zq) == #2024-01-02T00:00:00.000001#"], "I:1", "(I+q) with q = J-I of a day and a microsecond"),
                (["#2024-01-01# + 86400.000001 s == #2024-01-02T00:00:00.000001#"], "I:1", "a float span of a day and a microsecond")]
+    _items += [(["floor(#2024-01-01T23:00:00+00:00#)", "floor(#2024-01-02T01:00:00+02:00#) == #2024-01-02T00:00:00+02:00#"], "I:1", "floor of the same moment written with another offset"),
+               (["ceil(#2024-01-01T23:00:00+00:00#)", "zi = #2024-01-02T01:00:00+02:00#", "(ceil(zi) - floor(zi)) to d"], "I:1", "ceil - floor is one day for the same moment written with another offset"),
+               (["(#2024-01-01# + -1000000000000001e-15 s) - #2024-01-01#"], (lambda o: o.get("status") == 1 or ("-1" in (o.get("out") or ""))), "a negative span with a huge numerator is applied or refused, never shortened"),
+               (["#2024-02-29T10:00:00.5# - #2024-02-29T10:00:00#"], lambda o: o.get("status") == 0 and (o.get("out") or "").startswith("0.5 s"), "a fraction of a second in the literal"),
+               (["#2024-02-29T10:00:00.5# > #2024-02-29T10:00:00.25#"], "I:1", "fractions of a second compare by value")]
     _items += [(["#2020-01-01T01:00:00.000001# - #2020-01-01#"], lambda o: o.get("value") in ("Q:X:%s|0,0,1,0,0,0,0,0" % (3600.000001).hex(),), "microseconds survive a difference of an hour"),
                (["I = #2020-01-01#", "q = 1 year + 1 ms", "round(((I+q)-I) to ms) == 31536000001"], "I:1", "(I+q)-I = q (to the microsecond) for a year plus a millisecond"),
                (["I = #2020-01-01#", "J = I + 365 d + 1 ms", "K = I + 365 d + 2 ms", "(J-I) < (K-I)"], "I:1", "differences a millisecond apart at a year's distance are ordered")]
